@@ -77,6 +77,7 @@ def main():
     ap = argparse.ArgumentParser()
     ap.add_argument("--only", default="")
     ap.add_argument("--seeds", default="", help="comma separated seed directory names")
+    ap.add_argument("--missing", action="store_true", help="only seeds that have no 'caught' row yet")
     ap.add_argument("--tier", default="quick")
     ap.add_argument("-j", type=int, default=4)
     ap.add_argument("--out", default=os.path.join(ROOT, "seeded", "MATRIX.json"))
@@ -86,13 +87,16 @@ def main():
     seeds = set(x for x in a.seeds.split(",") if x)
     os.makedirs(SCRATCH, exist_ok=True)
     head = sh("git rev-parse --short HEAD", cwd=REPO)[1].strip()
+    done = set()
+    if a.missing and os.path.exists(a.out):
+        done = {r["seed"] for r in json.load(open(a.out)).get("rows", []) if r["verdict"] == "caught"}
     names = []
     for name in sorted(os.listdir(os.path.join(ROOT, "seeded"))):
         d = os.path.join(ROOT, "seeded", name)
         if not os.path.isfile(os.path.join(d, "patch.diff")):
             continue
         pid = json.load(open(os.path.join(d, "meta.json")))["property"]
-        if (only and pid not in only) or (seeds and name not in seeds):
+        if (only and pid not in only) or (seeds and name not in seeds) or name in done:
             continue
         names.append(name)
     rows = []
